@@ -234,6 +234,8 @@ def array_task(kind, deriv, dtype='float64', quantities=('isna', 'bounds', 'tota
     src, src_syms = T.build_array(ts, kind, specs, dtype)
     src_tags_before = [T.element_tags(kind, src[i]) for i in range(len(src))]
     fa, fl = DERIVS[deriv]
+    if 'sindex' in quantities and len(src) and kind != 'point':
+        src.build_sindex(page_size=2)           # index state "built on the parent, then derived"
     arr = fa(src)
     expect_ids = fl(list(range(len(src))))
     it = ts.install(Interp())
@@ -257,6 +259,11 @@ def array_task(kind, deriv, dtype='float64', quantities=('isna', 'bounds', 'tota
     def attr(o, name):
         return it.getattr_(o, name, None, True)
 
+    # ---- a derived array must not carry over an index whose keys are positions in its source
+    if 'sindex' in quantities and arr is not src and getattr(arr, '_sindex', None) is not None and deriv not in ('identity',):
+        same_rows = expect_ids == list(range(len(src)))
+        if not same_rows:
+            findings.append(('sindex', 'array', 'mismatch', 'derived array inherits the spatial index of its source although its rows differ'))
     # ---- isna
     if 'isna' in quantities:
         o = guarded(lambda: it.call(attr(arr, 'isna'), []))
@@ -558,6 +565,23 @@ def replay_finding(kind, specs, deriv, dtype, finding):
         inert_rows = [j for j in range(len(arr)) if arr[j] is None or not any(math.isfinite(c) for c in flat(wit['elements'][j]))]
         wit.update(got=got, expected='False for the inert rows ' + str(inert_rows))
         return any(got[j] for j in inert_rows), wit
+    if quantity == 'sindex':
+        src.build_sindex(page_size=2)
+        arr = DERIVS[deriv][0](src)
+        fresh = T.array_class(kind)([None if arr[j] is None else (arr[j].data.as_py() if kind != 'point' else arr[j].flat_values) for j in range(len(arr))], dtype=dtype)
+        tb = [v for v in fresh.total_bounds]
+        bad_any = False
+        for fx in (0.25, 0.5, 0.75):
+            bx = (tb[0], tb[1], tb[0] + (tb[2] - tb[0]) * fx, tb[1] + (tb[3] - tb[1]) * fx)
+            got = arr.cx[bx[0]:bx[2], bx[1]:bx[3]]
+            want = fresh.cx[bx[0]:bx[2], bx[1]:bx[3]]
+            g = [None if got[j] is None else got[j].data.as_py() for j in range(len(got))]
+            w = [None if want[j] is None else want[j].data.as_py() for j in range(len(want))]
+            if g != w:
+                wit.update(quantity='cx (index inherited from the source array)', form='array', got=g, expected=w, box=bx)
+                bad_any = True
+                break
+        return bad_any, wit
     if quantity == 'elements' or quantity == 'source':
         # tag identity is concrete: re-derive and compare with the reference selection
         ids = DERIVS[deriv][1](list(range(len(src))))
@@ -592,7 +616,7 @@ def replay_finding(kind, specs, deriv, dtype, finding):
     return bad, wit
 
 
-PROP_OF = {'intersects_bounds': 'C01', 'intersects': 'C02', 'bounds': 'C13', 'total_bounds': 'C13', 'total_bounds_x': 'C13',
+PROP_OF = {'sindex': 'C04', 'intersects_bounds': 'C01', 'intersects': 'C02', 'bounds': 'C13', 'total_bounds': 'C13', 'total_bounds_x': 'C13',
            'total_bounds_y': 'C13', 'length': 'C14', 'area': 'C14', 'isna': 'C16', 'elements': 'C16', 'source': 'C16', 'boundary': 'C14'}
 
 
